@@ -50,6 +50,7 @@ struct MBranch
 
 struct MEdge
 {
+    std::string dst_id_override;  // model fault: the target ref written to the XML (an id of another template)
     int src{0};
     bool srcb{false};
     int dst{0};
@@ -67,6 +68,7 @@ struct MTempl
     std::vector<MLoc> locs;
     std::vector<MBranch> bps;
     int init{0};
+    std::string init_override;  // model fault: the init ref / name written instead of the initial location's
     std::vector<MEdge> edges;
 };
 
@@ -213,6 +215,7 @@ struct FaultResult
     unsigned line{0}, scol{0}, ecol{0};
     std::string ident;
     int decl_index{-1};  // for declaration blocks: index of the declaration that contains the fault
+    bool type_position{false};  // TF_UNDECLARED hit a type name ("(q : idx_t)"): the result is a syntax error, not a semantic one
 };
 FaultResult apply_token_fault(const std::string& text, const std::vector<Token>& toks, size_t tok, int fault, BlockRef::Kind kind,
                               const std::string& a_channel);
@@ -241,6 +244,27 @@ std::string apply_struct_fault(const std::string& xml, int fault, Rng& rng, std:
 /** token-level fault somewhere in a text block of an XML model (or in a plain text) */
 std::string apply_random_token_fault_xml(const std::string& xml, Rng& rng, std::string& desc);
 std::string apply_random_token_fault_text(const std::string& text, Rng& rng, std::string& desc);
+
+/** model-level faults: well-formed XML / lexically fine XTA whose *meaning* is wrong in a way the library must survive and
+ *  recover from (duplicate names, wrong argument counts, unknown templates, references across templates, a system line
+ *  that is abandoned): the recovered-from-error documents C08 speaks of. Returns false when the model offers no site. */
+enum ModelFault {
+    MF_DUP_LOC_NAME,
+    MF_DROP_ARG,
+    MF_EXTRA_ARG,
+    MF_UNKNOWN_TEMPLATE,
+    MF_DUP_TEMPLATE_NAME,
+    MF_SYSTEM_NO_SEMI,
+    MF_DUP_PROCESS,
+    MF_DUP_DECL,
+    MF_DUP_PARAM,
+    MF_FOREIGN_TARGET,   // an edge whose target id belongs to another template
+    MF_INIT_IS_BRANCHPOINT,
+    MF_UNKNOWN_PROCESS,
+    MF_COUNT
+};
+const char* model_fault_name(int);
+bool apply_model_fault(Model& m, int fault, Rng& rng);
 
 std::string xml_escape(const std::string&, int mode = 0);
 
